@@ -7,7 +7,12 @@
  *
  * One case = one module rendered in lockstep by NCTX contexts that differ only in the
  * output configuration, all driven by the same control script (xmp_set_position,
- * xmp_next/prev_position, xmp_seek_time, xmp_set_row, xmp_restart_module at random frames):
+ * xmp_next/prev_position, xmp_seek_time, xmp_set_row, xmp_restart_module, xmp_set_tempo_factor,
+ * xmp_inject_event with a tempo effect, at random frames).  xmp_set_tempo_factor may refuse a value
+ * depending on the sampling rate (documented: the tick must fit the frame buffer); a value that is not
+ * accepted by all contexts is rolled back in all of them, so the script stays common.  One case in
+ * five is a "slow" case: the largest commonly accepted tempo factor followed by an injected tempo of
+ * 32 BPM, which drives the high-rate contexts into the tick-size clamp of libxmp_mixer_prepare.
  *
  *   ctx 0..3   "amp group":  rate R, 16-bit signed, mono flag M, amplification 0,1,2,3
  *   ctx 4..6   "encoding group": rate R, amp A, mono M: 16-bit unsigned, 8-bit signed, 8-bit unsigned
@@ -36,6 +41,7 @@
 #include <xmp.h>
 #include "common.h"
 #include "rng.h"
+#include "mixer.h"
 
 #define NGROUP 8
 #define NFREE 3
@@ -81,9 +87,40 @@ static void apply_cfg(xmp_context c, const struct cfg *k)
 	xmp_set_player(c, XMP_PLAYER_DSP, k->dsp);
 }
 
+static const double tf_vals[] = { 0.25, 0.5, 0.8, 1.5, 2.0, 3.0, 4.0, 6.0, 8.0 };
+#define NTF ((int)(sizeof(tf_vals) / sizeof(tf_vals[0])))
+
+/* xmp_set_tempo_factor in all contexts; keeps it only when all contexts answer the same.
+ * returns the common return code, or 1 when rolled back */
+static int tempo_factor_all(xmp_context *c, int n, double val)
+{
+	double old[32];
+	int r[32], i, same = 1;
+
+	for (i = 0; i < n; i++) {
+		old[i] = ((struct context_data *)c[i])->m.time_factor;
+		r[i] = xmp_set_tempo_factor(c[i], val);
+		if (r[i] != r[0])
+			same = 0;
+	}
+	if (same)
+		return r[0];
+	for (i = 0; i < n; i++)
+		((struct context_data *)c[i])->m.time_factor = old[i];
+	return 1;
+}
+
 static int do_op(xmp_context c, const struct op *o)
 {
+	struct xmp_event ev;
+
 	switch (o->kind) {
+	case 7:
+		memset(&ev, 0, sizeof(ev));
+		ev.fxt = 0x0f;		/* FX_SPEED: parameter >= 0x20 sets the tempo */
+		ev.fxp = o->arg;
+		xmp_inject_event(c, 0, &ev);
+		return 0;
 	case 0:
 		return xmp_set_position(c, o->arg);
 	case 1:
@@ -142,6 +179,8 @@ static int run_case(const char *path, const unsigned char *data, long size, uint
 	int i, j, nops, frame, nctx = 0, sites = 0, played = 0;
 	int R, M, A, len, total;
 	long nonsilent = 0, clipped = 0, rowchg = 0, poschg = 0, samples_cmp = 0, opok = 0, reconf = 0;
+	long novoice = 0, clampedf = 0, tfroll = 0;
+	int slow;
 	int lastrow = -1, lastpos = -1, maxloop = 0;
 	long fails_before = n_fail;
 
@@ -208,13 +247,18 @@ static int run_case(const char *path, const unsigned char *data, long size, uint
 	}
 
 	/* control script */
+	slow = vrng_chance(20);
 	nops = vrng_chance(25) ? 0 : vrng_range(1, maxframes / 25 + 1);
-	if (nops > MAXOPS)
-		nops = MAXOPS;
+	if (nops > MAXOPS - 2)
+		nops = MAXOPS - 2;
 	for (i = 0; i < nops; i++) {
 		ops[i].frame = vrng_range(0, maxframes - 1);
-		ops[i].kind = vrng_range(0, 5);
+		ops[i].kind = vrng_range(0, 7);
 		ops[i].arg = 0;
+		if (ops[i].kind == 6)
+			ops[i].arg = vrng_range(0, NTF - 1);
+		else if (ops[i].kind == 7)
+			ops[i].arg = vrng_range(0x20, 0xff);
 		if (ops[i].kind == 0)
 			ops[i].arg = vrng_chance(90) ? vrng_range(0, len - 1) : vrng_range(-2, len + 2);
 		else if (ops[i].kind == 3)
@@ -223,6 +267,16 @@ static int run_case(const char *path, const unsigned char *data, long size, uint
 			ops[i].arg = vrng_chance(90) ? vrng_range(0, 63) : vrng_range(-2, 300);
 	}
 
+	if (slow) {
+		ops[nops].frame = 1;
+		ops[nops].kind = 8;	/* largest commonly accepted tempo factor */
+		ops[nops].arg = 0;
+		nops++;
+		ops[nops].frame = vrng_range(2, 24);
+		ops[nops].kind = 7;
+		ops[nops].arg = 0x20;
+		nops++;
+	}
 	printf("begin %s cseed=%llu len=%d chn=%d ops=%d\n", path, (unsigned long long)cseed, len, mi.mod->chn, nops);
 	for (i = 0; i < NCTX; i++) {
 		int r = xmp_start_player(c[i], k[i].rate, k[i].fmt);
@@ -247,6 +301,17 @@ static int run_case(const char *path, const unsigned char *data, long size, uint
 			int r0 = 0;
 			if (ops[j].frame != frame)
 				continue;
+			if (ops[j].kind == 6 || ops[j].kind == 8) {
+				int q = ops[j].kind == 6 ? ops[j].arg : NTF - 1, r;
+				do {
+					r = tempo_factor_all(c, NCTX, tf_vals[q]);
+					if (r == 1)
+						tfroll++;
+				} while (ops[j].kind == 8 && r != 0 && --q >= 0);
+				if (r == 0)
+					opok++;
+				continue;
+			}
 			for (i = 0; i < NCTX; i++) {
 				int r = do_op(c[i], &ops[j]);
 				if (i == 0)
@@ -288,6 +353,17 @@ static int run_case(const char *path, const unsigned char *data, long size, uint
 		lastpos = t[0].pos;
 		if (t[0].loop_count > maxloop)
 			maxloop = t[0].loop_count;
+
+		/* reach counters: ticks without any allocated voice (seen by an unsigned context), ticks in
+		 * which some context's tick size was clamped by libxmp_mixer_prepare */
+		if (g[4]->p.virt.virt_used == 0)
+			novoice++;
+		for (i = 0; i < NCTX; i++) {
+			if (libxmp_mixer_get_ticksize(g[i]->s.freq, g[i]->m.time_factor, g[i]->m.rrate, g[i]->p.bpm) != g[i]->s.ticksize) {
+				clampedf++;
+				break;
+			}
+		}
 
 		/* layout */
 		for (i = 0; i < NCTX; i++) {
@@ -389,8 +465,9 @@ static int run_case(const char *path, const unsigned char *data, long size, uint
 	}
 	for (i = 0; i < NCTX; i++)
 		xmp_end_player(c[i]);
-	printf("stat frames=%d rowchg=%ld poschg=%ld loops=%d nonsilent=%ld clipped=%ld samples=%ld opok=%ld reconf=%ld fails=%ld\n",
-	       played, rowchg, poschg, maxloop, nonsilent, clipped, samples_cmp, opok, reconf, n_fail - fails_before);
+	printf("stat frames=%d rowchg=%ld poschg=%ld loops=%d nonsilent=%ld clipped=%ld samples=%ld opok=%ld reconf=%ld novoice=%ld clampticks=%ld tfroll=%ld slow=%d fails=%ld\n",
+	       played, rowchg, poschg, maxloop, nonsilent, clipped, samples_cmp, opok, reconf, novoice, clampedf, tfroll, slow,
+	       n_fail - fails_before);
     out:
 	printf("end\n");
 	for (i = 0; i < NCTX; i++) {
